@@ -120,6 +120,7 @@ def answer (ws : List String) : String :=
     let missing := (oracleArgs i).filter (fun a => !(i.env.oracle.any (fun e => e.1 == a)))
     if !missing.isEmpty then "bad-case oracle-missing" else
     if !((oracleArgs i).all i.env.ppSound) then "bad-case oracle-unsound" else
+    if (endpointOfPath i.env.extractPath).isSome then "bad-case extract-path-is-hijacked" else
     let unmodelled := match tgt with
       | .hijack h arg => h == "addHandler" && addUnmodelled (handlerQuery i arg)
       | _ => false
